@@ -196,7 +196,8 @@ pub fn unmechanised_lineage(rel: &Relation, col: usize, protected: &dyn Fn(&str)
     if depth > 200 { return None; }
     let with = |mut p: Vec<String>| { p.insert(0, rel.name().to_string()); p };
     match rel {
-        Relation::Table(t) => if protected(t.name()) { Some(vec![format!("{}.{}", t.name(), t.schema().iter().nth(col).map(|f| f.name().to_string()).unwrap_or_default())]) } else { None },
+        // a table is what its path reads, whatever it is called
+        Relation::Table(t) => if protected(t.name()) || t.path().iter().any(|p| protected(p)) { Some(vec![format!("{}.{}", t.name(), t.schema().iter().nth(col).map(|f| f.name().to_string()).unwrap_or_default())]) } else { None },
         Relation::Values(_) => None,
         Relation::Map(m) => {
             if m.filter().as_ref().and_then(tau_of).is_some() { return None; }
